@@ -801,7 +801,10 @@ package sbom
 //@   ensures [C08:relateNode:unique] old(uniqueIdx(nl)) ==> uniqueIdx(nl)
 
 //@ func NodeList.RelateNodeListAtID
-//@   props C04, C08
+//@   props C04, C08, C05
+//@   ensures [C05:relate:nodesGrow] forall x string :: (x in old(fieldset(nl.Nodes, Id))) ==> (x in fieldset(nl.Nodes, Id))
+//@   invariant L0: [C05:inv] forall x string :: (x in old(fieldset(nl.Nodes, Id))) ==> (x in fieldset(nl.Nodes, Id))
+//@   invariant L1: [C05:inv] forall x string :: (x in old(fieldset(nl.Nodes, Id))) ==> (x in fieldset(nl.Nodes, Id))
 //@   requires validNL(nl) && validNL(nl2) && separatedNL(nl, nl2)
 //@   assigns nl.Nodes, nl.Edges, nl.RootElements, (nl.Edges)[*]
 //@   ensures [validNL] validNL(nl)
